@@ -1,5 +1,166 @@
+import NessaiVerif.Model.CrashFS
+import NessaiVerif.Gen.CrashFS
 import NessaiVerif.Driver.Parse
-/- stub: replaced by the owner of this area -/
+/-
+C11 line protocol (token `fs`).  Contents: `-` absent, `C<v>.<n>` complete, `T<k>` torn.
+Events: `c:<se 0/1>:<v>:<n>:<len>:<cp>` checkpoint, `t:<w>:<len>:<e>:<cp>` training/weights save
+(`<e>` = what torch.load raises on a prefix of this file: R|O|E|U|F);
+torn weights files are written `T<k><e>`;
+`<cp>` = `-` (completed) | `<j>` (killed before operation j) | `<j>.<k>` (killed inside operation j after k bytes).
+
+  fs hist <std|ins> <ev>*          -> state after the history and what a resume does
+  fs ops <std|ins> <ev> <ev>*      -> operations the FIRST event performs when run after the others
+  fs resume <std|ins> <top> <path>=<content>*   -> resume on an arbitrary directory state
+  fs cfg                           -> the generated configuration (for the evidence)
+-/
 namespace NessaiVerif.Driver.CrashFS
-def handle (_toks : List String) : String := "bad-op"
+open NessaiVerif NessaiVerif.Parse NessaiVerif.CrashFS
+
+def excLetter : Exc → String
+  | .fileNotFound => "F" | .runtime => "R" | .eof => "E" | .unpickling => "U" | .osError => "O"
+  | .tornPickle => ""
+
+def parseExcLetter? : String → Option Exc
+  | "F" => some .fileNotFound | "R" => some .runtime | "E" => some .eof | "U" => some .unpickling
+  | "O" => some .osError | "" => some .tornPickle | "P" => some .tornPickle | _ => none
+
+def showContent : Content → String
+  | .absent => "-"
+  | .complete v n => s!"C{v}.{n}"
+  | .torn k e => s!"T{k}{excLetter e}"
+
+def showSuffix : Suffix → String
+  | .base => "base" | .old => "old" | .temp => "temp"
+
+def showOp : Op → String
+  | .existsCheck p => s!"E:{showSuffix p}"
+  | .move a b => s!"M:{showSuffix a}:{showSuffix b}"
+  | .openTrunc p => s!"O:{showSuffix p}"
+  | .write p => s!"W:{showSuffix p}"
+  | .close p => s!"X:{showSuffix p}"
+  | .save p => s!"S:{showSuffix p}"
+
+def showExc : Exc → String
+  | .fileNotFound => "FileNotFoundError"
+  | .runtime => "RuntimeError"
+  | .eof => "EOFError"
+  | .unpickling => "UnpicklingError"
+  | .osError => "OSError"
+  | .tornPickle => "torn-pickle"
+
+def showOutcome : Outcome → String
+  | .fresh => "fresh"
+  | .loaded v n => s!"loaded:{v}:{n}"
+  | .raises e => s!"raises:{showExc e}"
+
+def parseKind? : String → Option Kind
+  | "std" => some .std | "ins" => some .ins | _ => none
+
+def parseCp? (s : String) : Option (Option CrashPt) :=
+  if s == "-" then some none else
+  match s.splitOn "." with
+  | [j] => j.toNat?.map fun j => some ⟨j, none⟩
+  | [j, k] => do
+    let j ← j.toNat?
+    let k ← k.toNat?
+    pure (some ⟨j, some k⟩)
+  | _ => none
+
+def parseEv? (s : String) : Option Ev :=
+  match s.splitOn ":" with
+  | ["c", se, v, n, len, cp] => do
+    let se ← parseBool? se
+    let v ← v.toNat?
+    let n ← n.toNat?
+    let len ← len.toNat?
+    let cp ← parseCp? cp
+    pure (.ckpt se v n len cp)
+  | ["t", w, len, e, cp] => do
+    let w ← w.toNat?
+    let len ← len.toNat?
+    let e ← parseExcLetter? e
+    let cp ← parseCp? cp
+    pure (.train w len e cp)
+  | _ => none
+
+def parseContent? (s : String) : Option Content :=
+  if s == "-" then some .absent else
+  match s.toList with
+  | 'T' :: r =>
+    let digits := r.takeWhile Char.isDigit
+    let rest := r.dropWhile Char.isDigit
+    match (String.ofList digits).toNat?, parseExcLetter? (String.ofList rest) with
+    | some k, some e => some (.torn k e)
+    | _, _ => none
+  | 'C' :: r =>
+    match (String.ofList r).splitOn "." with
+    | [v, n] => do
+      let v ← v.toNat?
+      let n ← n.toNat?
+      pure (.complete v n)
+    | _ => none
+  | _ => none
+
+def parseSuffix? : String → Option Suffix
+  | "base" => some .base | "old" => some .old | "temp" => some .temp | _ => none
+
+/-- `ckpt.base`, `w.old`, `l3.base` -/
+def parsePath? (s : String) : Option Path :=
+  match s.splitOn "." with
+  | [f, suf] => do
+    let suf ← parseSuffix? suf
+    if f == "ckpt" then pure ⟨.ckpt, suf⟩
+    else if f == "w" then pure ⟨.weights, suf⟩
+    else match f.toList with
+      | 'l' :: r => (String.ofList r).toNat?.map fun i => ⟨.level i, suf⟩
+      | _ => none
+  | _ => none
+
+def showSys (kind : Kind) (s : Sys) : String :=
+  let fam3 (f : Fam) := ",".intercalate ([Suffix.base, .old, .temp].map fun x => showContent (s.fs ⟨f, x⟩))
+  let lv := ";".intercalate ((List.range s.top).map fun i =>
+    s!"{i}:" ++ showContent (s.fs ⟨.level i, .base⟩) ++ "/" ++ showContent (s.fs ⟨.level i, .old⟩))
+  s!"ckpt={fam3 .ckpt} w={fam3 .weights} lv=[{lv}] mem={s.mem} top={s.top} out=" ++
+    showOutcome (resume kind Gen.protocol.cfg s.top s.fs)
+
+def showNames (l : List ExcName) : String :=
+  "(" ++ ",".intercalate (l.map fun n => (reprStr n).replace "NessaiVerif.CrashFS.ExcName." "") ++ ")"
+
+def handle (toks : List String) : String :=
+  match toks with
+  | "hist" :: k :: evs =>
+    match parseKind? k, evs.mapM parseEv? with
+    | some kind, some evs => showSys kind (replay kind Gen.protocol evs)
+    | _, _ => "bad-op"
+  | "ops" :: k :: e :: evs =>
+    match parseKind? k, parseEv? e, evs.mapM parseEv? with
+    | some kind, some e, some evs =>
+      let s := replay kind Gen.protocol evs
+      let ops := match e with
+        | .ckpt se v n len _ => dyn .ckpt ⟨v, ckptN kind n s.mem, len, .tornPickle⟩ (Gen.protocol.dump se) s.fs
+        | .train w len e _ => dyn (trainFam kind s.mem) ⟨w, 0, len, e⟩ Gen.protocol.saveWeights s.fs
+      " ".intercalate (ops.map showOp)
+    | _, _, _ => "bad-op"
+  | "resume" :: k :: top :: assigns =>
+    match parseKind? k, top.toNat? with
+    | some kind, some top =>
+      let step (acc : Option FS) (a : String) : Option FS := do
+        let fs ← acc
+        match a.splitOn "=" with
+        | [p, c] => do
+          let p ← parsePath? p
+          let c ← parseContent? c
+          pure (fs.set p c)
+        | _ => none
+      match assigns.foldl step (some emptyFS) with
+      | some fs => showOutcome (resume kind Gen.protocol.cfg top fs)
+      | none => "bad-op"
+    | _, _ => "bad-op"
+  | ["cfg"] =>
+    let c := Gen.protocol.cfg
+    s!"safe={showBool c.weights.safe} first={showSuffix c.first}{showNames c.catchFirst} " ++
+    s!"second={showSuffix c.second}{showNames c.catchSecond} guard={showBool c.weights.guardExists} " ++
+    s!"wcatch={showNames c.weights.excs}"
+  | _ => "bad-op"
+
 end NessaiVerif.Driver.CrashFS
